@@ -18,6 +18,7 @@ import (
 //  2. if the replay file carries a Go test (a concrete failing input found for
 //     the obligation), the test is run in-package through `go test -overlay`
 //     (nothing is written into /repo).
+//
 // Exit 1 if the violation is still present, 0 if it is gone.
 func cmdReplay(args []string) {
 	if len(args) != 1 {
